@@ -13,8 +13,12 @@ import (
 	"os"
 	"strings"
 
+	"github.com/wokdav/gopki/generator/cert"
 	"github.com/wokdav/gopki/generator/config"
+	"github.com/wokdav/gopki/generator/db"
+	"github.com/wokdav/gopki/generator/db/filesystem"
 
+	"verifharness/internal/simfs"
 	"verifharness/internal/util"
 )
 
@@ -37,6 +41,7 @@ type c09Obs struct {
 	Accepted   bool   `json:"accepted"`
 	Panic      string `json:"panic,omitempty"`
 	Why        []string `json:"why,omitempty"`
+	Skipped    string `json:"skipped,omitempty"` // -api: the call failed for a reason that is not the profile's verdict
 }
 
 // attribute numbering shared with MCSubject: 1..NAttr profile alphabet, NAttr+1 foreign
@@ -182,6 +187,7 @@ func cmdC09One(args []string) int {
 	in := fs.String("in", "in.ndjson", "")
 	out := fs.String("out", "obs.ndjson", "")
 	nattr := fs.Int("nattr", 4, "")
+	api := fs.Bool("api", false, "decide through the programmatic interface: AddProfile + AddAndSign on a fresh filesystem database")
 	fs.Parse(args)
 	f, err := os.Open(*in)
 	if err != nil {
@@ -204,7 +210,29 @@ func cmdC09One(args []string) int {
 			if err != nil {
 				return
 			}
-			o.Accepted = config.Validate(prof, config.CertificateContent{Alias: "x", Subject: rdn})
+			if !*api {
+				o.Accepted = config.Validate(prof, config.CertificateContent{Alias: "x", Subject: rdn})
+				return
+			}
+			// the profile does not come from a file but through the database interface; the verdict is what AddAndSign does
+			d := filesystem.NewFilesystemDatabase(simfs.New())
+			if err := d.Open(); err != nil {
+				o.Skipped = "open: " + err.Error()
+				return
+			}
+			if err := d.AddProfile(prof); err != nil {
+				o.Skipped = "AddProfile: " + err.Error()
+				return
+			}
+			_, err = db.AddAndSign(d, config.CertificateContent{Alias: "x", Subject: rdn, Profile: "p", KeyAlgorithm: cert.P224, SignatureAlgorithm: cert.ECDSAwithSHA256}, true)
+			switch {
+			case err == nil:
+				o.Accepted = true
+			case strings.Contains(err.Error(), "does not validate"):
+				o.Accepted = false
+			default:
+				o.Skipped = "AddAndSign: " + err.Error()
+			}
 		})
 		if pan {
 			o.Panic = msg
